@@ -1148,12 +1148,13 @@ def _run(ctx, q, pf):
     for cfg in ex_cfgs:
         run_vectors(ctx, cfg, cfg[3:-4], ratios, res=pf.check_spec(ctx, 'export-' + cfg[3:-4]))
         _tick('vectors ' + cfg)
-    # correlated-k mode under two further readings: the closest spacing TLC exported and the one spanning most decades of x
+    # correlated-k mode (the 3-point export) under further readings: quick -- the closest spacing TLC exported and the one
+    # spanning most decades of x; thorough -- every exported reading
     close_ips = sorted((i for i in ips.values() if i.prefix and 'close' in i.id), key=lambda i: i.idx)
-    kips = close_ips[-1:] + [i for i in ips.values() if i.id == 'farir']
+    kips = (close_ips[-1:] + [i for i in ips.values() if i.id == 'farir']) if q else [ips[i] for i in sorted(ips) if i != 1]
     for n_, cfg in enumerate(k_cfgs):
         run_kvectors(ctx, cfg, cfg[3:-4], ratios, res=pf.check_spec(ctx, 'export-' + cfg[3:-4]),
-                     interps=kips if (n_ == len(k_cfgs) - 1 or not q) else ())
+                     interps=kips if n_ == len(k_cfgs) - 1 else ())
         _tick('vectors ' + cfg)
     # ---- binding C
     for cfg in c_cfgs:
